@@ -105,10 +105,16 @@ def array_obligations(ctx):
     UW = ["--unwind", "6", "--unwinding-assertions"]
     obls = []
     for a, b in array_pairs(ctx.tier):
-        d = srcdefs(ctx); d.update({"H_ARRAY": None, "C16_LT": str(ord(a)), "C16_RT": str(ord(b))})
-        obls.append(Obl("C16.array.%s_%s" % (a, b), PID, S, entry="h_array", defines=d, includes=inc, mode="bounded",
-                        bound="arrays of 0..2 elements (no nested arrays; string/blob elements of 0..1 bytes), both directions",
-                        cbmc=UW, timeout=100, case={"left element type": a, "right element type": b}))
+        # boolean x boolean: 7 x 7 T/F mixes; split by left length to keep each run short
+        for ln in ([0, 1, 2] if (a in "TF" and b in "TF") else [None]):
+            d = srcdefs(ctx); d.update({"H_ARRAY": None, "C16_LT": str(ord(a)), "C16_RT": str(ord(b))})
+            name = "C16.array.%s_%s" % (a, b)
+            if ln is not None:
+                d["C16_LN"] = str(ln); name += ".ln%d" % ln
+            obls.append(Obl(name, PID, S, entry="h_array", defines=d, includes=inc, mode="bounded",
+                            bound="arrays of 0..2 elements (no nested arrays; string/blob elements of 0..1 bytes), both directions",
+                            cbmc=UW, timeout=100, case={"left element type": a, "right element type": b,
+                                                        "left length": "0..2" if ln is None else ln}))
     d = srcdefs(ctx); d.update({"H_SPEC_LAWS_ARRAY": None})
     obls.append(Obl("C16.spec_laws.arrays", PID, S, entry="h_spec_laws_array", defines=d, includes=inc, mode="bounded",
                     bound="spec only: three arrays of 0..2 elements, element types F T I N S i h", cbmc=UW, timeout=100))
